@@ -119,7 +119,25 @@ func init() {
 		}
 		defer cl.Close()
 		// starting sequence numbers (both NextSeqNo fields are exported)
+		// The client's poller is already running: a poll formed before the change still acknowledges a number of the old range.
+		// Exchanges are serialised by the client, so after two more completed exchanges no such poll is left; the memories are
+		// emptied then (a session that had really reached these numbers would remember only recent ones).
 		sadns.VerifSetSeq(cl, sconn, uint16(a[0].I), uint16(a[1].I))
+		for round := 0; round < 2; round++ {
+			cc.mu.Lock()
+			e0 := cc.exchange
+			cc.mu.Unlock()
+			for w := 0; w < 4000; w++ {
+				cc.mu.Lock()
+				e := cc.exchange
+				cc.mu.Unlock()
+				if e >= e0+2 {
+					break
+				}
+				time.Sleep(time.Millisecond)
+			}
+			sadns.VerifForgetAcks(cl, sconn)
+		}
 		out := []Tok{TW("hs"), TW("ok")}
 		i := 3
 		n := int(a[i].I)
